@@ -6,8 +6,8 @@ T1: Gen/Params.v (RESULTS_QUEUE_SIZE, TRANSIT_MAX, NUM_BUFFERED_RESULTS,
 T2: (a) OBSERVABLE - a real multi-file FileSearcher.run() against one
         single-file run() per path, canonicalised per path; every real run in
         its own process group with a hard timeout (child mode of this file).
-    (b) STRUCTURAL - the real code objects SearchTask._simple_search /
-        _flush_results_buffer / put_result, FileSearcher._get_results /
+    (b) STRUCTURAL - the real SearchTask.execute (per-line search, buffer
+        flushes, put_result), FileSearcher._get_results /
         _purge_results and SearchResultsCollection.add are driven, in one
         process, against an instrumented bounded queue whose operations are
         scheduling points of a deterministic scheduler.  Every executed
@@ -709,6 +709,10 @@ class Sched:
             raise HarnessError("an actor did not reach a scheduling point")
 
     def point(self, op, payload=None):
+        if self.killed:
+            # the run is being torn down: `finally` blocks of the code under
+            # test (execute() flushes there) must not park again
+            raise Killed()
         actor = self.by_ident[threading.get_ident()]
         actor.pending = (op, payload)
         self.arrived.release()
@@ -827,14 +831,24 @@ class Fixture:
         self.infos = list(self.catalog)
         self.src_of = {e['source_id']: i for i, e in enumerate(self.infos)}
         assert [e['path'] for e in self.infos] == self.paths
+        self.cmgr = S.SearchConstraintsManager(self.catalog)
+        self.written = {}
+
+    def set_count(self, i, count):
+        """ file i holds `count` result lines `<ln> x`; count 0 is a
+        zero-length file (execute() returns without searching it) """
+        if self.written.get(i) != count:
+            with open(self.paths[i], 'w', encoding='utf-8') as f:
+                f.write("".join(f"{ln} x\n" for ln in range(1, count + 1)))
+            self.written[i] = count
 
     def close(self):
         shutil.rmtree(self.dir, ignore_errors=True)
 
 
 class World:
-    """ one run: n producer threads (real _simple_search / _flush / put_result
-    on real SearchTask objects), the real _get_results collector thread, the
+    """ one run: n producer threads (real SearchTask.execute: search, flush,
+    put_result on real SearchTask objects), the real _get_results collector thread, the
     manager's steps, the real _purge_results """
     def __init__(self, fx, cfg):
         import searchkit.search as S
@@ -867,7 +881,8 @@ class World:
         self.problems = []        # direct property violations (witnesses)
         rm = T.SearchTaskResultsManager(self.store, results_queue=self.q)
         for i in range(self.n):
-            task = T.SearchTask(fx.infos[i], constraints_manager=None,
+            fx.set_count(i, cfg['counts'][i])
+            task = T.SearchTask(fx.infos[i], constraints_manager=fx.cmgr,
                                 results_manager=rm)
             self.tasks.append(task)
         for i in range(self.n):
@@ -884,10 +899,11 @@ class World:
                          self.tm.event, self.coll, self.q)
 
     def _producer(self, task, count):
-        sd = self.fx.sd
-        for ln in range(1, count + 1):
-            task._simple_search(sd, f"{ln} x\n", ln)
-        task._flush_results_buffer()     # execute(): `finally` flush
+        # what a pool worker runs: the task's execute() on its file (whose
+        # `count` lines each give one result), i.e. the per-line search, the
+        # threshold flushes, the final flush and put_result - whatever
+        # private helpers they are split into
+        task.execute()
 
     # ---- observation
     def queue_view(self):
@@ -1486,7 +1502,7 @@ def run(chk):
         "group, hard timeout) vs one run() per file, per-path lists of "
         "(line, tag, values, section rank) compared; non-trivial = >= 2 "
         "files and >= 1 result.  structural: each executed schedule of the "
-        "real _simple_search/_flush_results_buffer/put_result/_get_results/"
+        "real SearchTask.execute (search, flush, put_result)/_get_results/"
         "_purge_results on the instrumented queue, compared step by step "
         "with Model/Pipeline.v evaluated in Coq; non-trivial = distinct "
         "(config, model schedule) with >= 1 result")
